@@ -71,6 +71,8 @@ TBeginFollow ==
     /\ Check(t, l, "Clock", e.now = now)
     /\ Check(t, l, "NameLookupSameCandidate", result[1] = "answer" /\ e.qname = result[2] /\ e.qtype = "A" /\ e.qclass = qclass)
     /\ Check(t, l, "TimeoutPositive", e.life >= 1)
+    \* within the lifetime of the whole address lookup (`start` still is the start of its first lookup)
+    /\ Check(t, l, "NameLookupLifetime", e.life <= e.nlife - (IF now < start THEN 0 ELSE now - start))
     /\ BeginFollowUp(e.life) /\ Adv
 (* resolve_name() returned / raised: what it makes of the two answers is not part of this property *)
 TNameEnd == phase = "rest" /\ IsOp("nameend") /\ UNCHANGED vars /\ Adv
